@@ -184,6 +184,6 @@ def run(rep, tier):
                        '(operand zero, operand equal to one, general) and the result is compared with the oracle of Appendix A.3: exact product term x*y at scale p+q, the '
                        'short-cut results, or the term Rnd[thread](x*y / 10^(p+q-18)) at scale 18 (cross-multiplied rationals); failures only as overflow of x*y resp. of the '
                        'rounded product; checked_mul never panics and returns None whenever p+q > 18. Integer forms: exact x*i at the Decimal\'s scale.')
-    rep.assume('modulo the summaries R (proved in C05) and W (proved in C16 under contract U of the unsigned 256-bit kernels)')
+    rep.assume('modulo the summaries R (proved in C05) and W (proved in C16 down to the unsigned 256-bit kernels, Knuth-D included; the relevant proofs are re-run here as DEP-* obligations)')
     rep.assume('dev-profile semantics (overflow checks on); release behaviour is C20')
     rep.trust('rustc nightly MIR; absint transfer functions and callee models')
